@@ -158,8 +158,11 @@ def backportMesh (p : List V3) : List V3 := (List.range p.length).map (pget p)
 
 /-! ### histories: several calls on one smoother, and a sketch that is smoothed again after it was moved -/
 
-/-- TOL² of `fix_points` -/
-def tol2 : Rat := 1 / (10 ^ 14 : Nat)
+/-- TOL² of `fix_points` (`constants.TOL` = 1 / `c15TolDen`, regenerated from the source) -/
+def tol2 : Rat := 1 / ((CBV.Gen.c15TolDen ^ 2 : Nat) : Rat)
+
+/-- default of `smooth(iterations=…)`, regenerated from the source -/
+def defaultIters : Nat := CBV.Gen.c15SmoothDefaultIters
 
 /-- one call on a `SmootherBase` -/
 inductive Op where
@@ -208,6 +211,26 @@ def latticeLikeB (g : Grid) (fixed : List Nat) (coord : Nat → V3) : Bool :=
     (!(junctionNbrs g j).isEmpty &&
       vsum ((junctionNbrs g j).map coord) == V3.smul ((junctionNbrs g j).length : Rat) (coord j)))
 
+/-! ### anchoring: every free junction is linked to the frame (hypothesis of the uniqueness theorem, decided per grid) -/
+
+/-- one round: the junctions already reached, plus those with a reached neighbour -/
+def reachStep (nbrs : Nat → List Nat) (n : Nat) (r : List Nat) : List Nat :=
+  (List.range n).filter (fun j => r.contains j || (nbrs j).any (fun t => r.contains t))
+
+/-- the junctions below `n` that reach a junction of `nonfree` in at most `k` links -/
+def reachSet (nbrs : Nat → List Nat) (n : Nat) (nonfree : List Nat) : Nat → List Nat
+  | 0 => nonfree
+  | k + 1 => reachStep nbrs n (reachSet nbrs n nonfree k)
+
+/-- every free inner junction reaches a boundary or fixed junction along `Junction.neighbours` links
+    (then the averaging equations have exactly one solution for given boundary / fixed positions) -/
+def anchoredB (g : Grid) (fixed : List Nat) : Bool :=
+  let inn := inner g
+  let nb := (List.range g.n).map (junctionNbrs g)
+  let nonfree := (List.range g.n).filter (fun i => !inn.contains i || fixed.contains i)
+  let r := reachSet (fun j => nb.getD j []) g.n nonfree g.n
+  inn.all (fun j => fixed.contains j || r.contains j)
+
 /-! ### line protocol -/
 
 /-- `a;b;c` of `[i,j,…]` lists -/
@@ -250,7 +273,7 @@ def handleTopo (args : List String) : Option String :=
       some s!"B{showNatList bnd} I{showNatList inn} N{";".intercalate nb} C{";".intercalate cn}"
   | _ => none
 
-/-- `c15.smooth kind cells points fixedIdx fixedPts iters` → positions after smoothing, the copied
+/-- `c15.smooth kind cells points fixedIdx fixedPts iters` (`iters` a number or `default`) → positions after smoothing, the copied
     back faces (sketch) or vertices (mesh), and the positions reconstructed from the faces -/
 def handleSmooth (args : List String) : Option String :=
   match args with
@@ -260,10 +283,10 @@ def handleSmooth (args : List String) : Option String :=
       let p ← parsePts? pts
       let fi ← parseNatList? fixedIdx
       let fp ← parsePts? fixedPts
-      let it ← parseNat? iters
+      let it ← if iters = "default" then some defaultIters else parseNat? iters
       let g : Grid := ⟨kind, cells, p.length⟩
       if !wellFormed g then some "reject" else
-      let fixed := fi ++ fixPoints (1 / (10 ^ 14 : Nat)) p fp
+      let fixed := fi ++ fixPoints tol2 p fp
       if !defined g fixed then some "undefined" else
       let q := smooth g fixed it p
       let faces := backportSketch cells q
@@ -283,6 +306,19 @@ def handleLattice (args : List String) : Option String :=
       let g : Grid := ⟨kind, cells, cs.length⟩
       if !wellFormed g then some "reject" else
       some (toString (latticeLikeB g fi (pget cs)))
+  | _ => none
+
+/-- `c15.anchored kind cells n fixedIdx` → whether every free inner junction is linked to the frame -/
+def handleAnchored (args : List String) : Option String :=
+  match args with
+  | [k, cells, n, fixedIdx] => do
+      let kind ← kindOf? k
+      let cells ← parseCells? cells
+      let n ← parseNat? n
+      let fi ← parseNatList? fixedIdx
+      let g : Grid := ⟨kind, cells, n⟩
+      if !wellFormed g then some "reject" else
+      some (toString (anchoredB g fi))
   | _ => none
 
 def parseOp? (s : String) : Option Op :=
@@ -342,6 +378,7 @@ def handle (op : String) (args : List String) : Option String :=
   | "c15.hist" => handleHist args
   | "c15.sketch" => handleSketch args
   | "c15.lattice" => handleLattice args
+  | "c15.anchored" => handleAnchored args
   | "c15.topo" => handleTopo args
   | "c15.smooth" => handleSmooth args
   | _ => none
